@@ -45,7 +45,7 @@ EXPECTED = np.array([0, 1, 2, 3])  # 3 never occurs: its slot needs the fill
 
 
 def bounds(tier, seed):
-    return dict(funcs=QUICK_FUNCS if tier == "quick" else ALL_FUNCS, user_dtypes=[None, "float32"] if tier == "quick" else [None, "float32", "float64", "int64"],
+    return dict(funcs=QUICK_FUNCS if tier == "quick" else ALL_FUNCS, user_dtypes=[None, "float32", "int32"] if tier == "quick" else [None, "float32", "float64", "int64", "int32"],
                 min_counts=[None] if tier == "quick" else [None, 1])
 
 
